@@ -351,7 +351,8 @@ class TFLiteSemantic:
         extra = []
         tensors = [tens for tens in op.get_ifm_ifm2_weights_ofm() if tens]
         for tens in tensors:
-            if tens.quantization is None:
+            # a scale without a zero point (or vice versa) is an incomplete set of quantization parameters
+            if tens.quantization is None or (tens.quantization.scale_f32 is None) != (tens.quantization.zero_point is None):
                 valid = False
                 extra.append(tens.name)
         extra = ", ".join(extra)
